@@ -10,6 +10,7 @@ use sdjwt::Algorithm;
 use serde_json::{json, Value};
 
 pub fn run_case(ctx: &mut Ctx, case: &Value) {
+    crate::real::set_current(case);
     ctx.report.evaluations += 1;
     let ic = match issue_ref(ctx, case) {
         Some(ic) => ic,
